@@ -17,8 +17,16 @@ Semantics derived from the code, the docstrings and the callers (all asserted be
     EMA at alpha == 0 and only the inner baseline at alpha == 1.
 
 Histories are Hypothesis RuleBasedStateMachine runs recorded as replayable op lists (vf.stateful).
+
+Round 3b (audit items 20, 35, H4): per-batch dtypes inside one history (float32 <-> float64, float16 / bfloat16 on a
+small lattice), 0-dim and [B,A,S] batches, [B,1] and python-number inner values under the warm-up baseline, copies
+(deepcopy / pickle) in the middle of a history with both copies continuing, nn.Module casts, WarmupBaseline.setup
+(twice), SharedBaseline(on_dim=...), the registry branch "warmup", calculate_loss(reward=, log_likelihood=) and
+batch["extra"] in front of stateful baselines.
 """
+import copy
 import math
+import pickle
 import types
 
 import hypothesis.strategies as st
@@ -37,21 +45,40 @@ RULE = (
     "0 and 1, rewards with and without grad, [B] and [B,S]); over WarmupBaseline (n_epochs 1-5, direct constructor or "
     "get_reinforce_baseline('rollout') factory, stub inner baseline, epoch_callback(epoch=e) with arbitrary e in 0..n+2 "
     "as well as consecutive epochs, eval, wrap_dataset); plus flat cases for No/Shared/Mean baselines and for "
-    "REINFORCE.calculate_loss with 1-4 consecutive batches. Non-trivial = scaler history with >=3 batches of >=2 "
+    "REINFORCE.calculate_loss with 1-4 consecutive batches. Round 3b: every scaler batch may come in its own dtype "
+    "(float32/float64 anywhere; float16/bfloat16 batches and accumulators in small-lattice histories, values k/8 in "
+    "[-2,2]), shapes also 0-dim and [B,A,S]; EMA batches in float32/float64 per eval; mid-history deepcopy/pickle of "
+    "scaler / EMA / warm-up baseline with BOTH copies continuing (observe_twin / eval_twin), nn.Module casts "
+    "(.double()/.float()/.to) of the EMA baseline, WarmupBaseline.setup (also twice); warm-up inner values [B,1] against "
+    "[B,S] rewards and python numbers (NoBaseline); SharedBaseline(on_dim=-1|last|tuple); registry branch 'warmup' "
+    "(Warmup(Warmup(stub)), 0-5 epoch callbacks); calculate_loss(reward=, log_likelihood=) with decoy policy_out; "
+    "batch['extra'] in front of exponential/mean/warm-up baselines. Non-trivial = scaler history with >=3 batches of >=2 "
     "distinct sizes / baseline history with >=2 evals (warm-up: >=2 evals and >=1 epoch callback); distinct = distinct "
     "history hash."
 )
 
-EPS = {"f32": float(torch.finfo(torch.float32).eps), "f64": float(torch.finfo(torch.float64).eps)}
-TINY = {"f32": float(torch.finfo(torch.float32).tiny), "f64": float(torch.finfo(torch.float64).tiny)}
-DT = {"f32": torch.float32, "f64": torch.float64}
+DT = {"f32": torch.float32, "f64": torch.float64, "f16": torch.float16, "bf16": torch.bfloat16}
+EPS = {k: float(torch.finfo(v).eps) for k, v in DT.items()}
+TINY = {k: float(torch.finfo(v).tiny) for k, v in DT.items()}
+HALF = ("f16", "bf16")
 EPS32 = EPS["f32"]
 C_M2 = 32.0          # |M2 - ref| <= C_M2 * N * eps * max|x|^2   (observed worst ratio on 150k random steps: 1.9)
 NOISE_FLOOR = 1e-6   # outputs compared against reference statistics only if std_ref > NOISE_FLOOR * max|x| ...
 MAX_REL_VAR = 0.1    # ... and the forward bound on M2 is below this fraction of the reference M2
 
 ASSUMPTIONS = [
-    "all observed values finite, |x| in {0} u [2^-10, 1e5]; one dtype per history (float32 or float64), batch sizes 1-50",
+    "all observed values finite, |x| in {0} u [2^-10, 1e5]; batch sizes 1-50; per-batch dtype: the accumulators keep the "
+    "dtype of the first batch and every update runs in the coarser of (accumulator, batch) dtype, so all bounds use the "
+    "eps of the coarsest dtype seen so far and the output keeps the dtype of its input; float16/bfloat16 only in "
+    "histories whose values are all k/8, |k| <= 16 (float16 squares deviations: overflow at 65504 is outside the domain)",
+    "copies: deepcopy and pickle round trips are the supported persistence routes (copy.copy shares the accumulator "
+    "tensors by Python semantics and is not asserted); after a copy each object is checked against its own model",
+    "warm-up inner value shapes: [B], 0-dim, [B,1] (reward [B,S]) and python numbers; value = alpha*inner + (1-alpha)*ema "
+    "must broadcast to the reward shape; with python-number inner outputs the alpha == 1 result is that number itself",
+    "registry 'warmup': n_epochs is forwarded to both warm-up levels, warmup_exp_beta configures the outer moving average "
+    "(the inner one reads exp_beta; not asserted); get_reinforce_baseline('warmup', baseline=...) raises (audit section C)",
+    "batch['extra'] present: calculate_loss uses it as the baseline value and must not evaluate (advance) the model's own "
+    "baseline (docstring: extra = 'additional loss terms, e.g., REINFORCE baseline')",
     "statistics are updated with the current batch before that batch is transformed (code order; single call per batch "
     "in reinforce.py and stepwise_ppo.py)",
     "reference = float64 two-pass mean / corrected sum of squares (math.fsum) over the exactly up-cast observed values",
@@ -107,7 +134,8 @@ def batch_spec():
     const = st.fixed_dictionaries({"fam": st.just("const"), "n": _sizes, "c": st.one_of(st.none(), st.none(), _value)})
     offset = st.fixed_dictionaries({"fam": st.just("offset"), "n": _sizes, "seed": _seed})
     mixed = st.fixed_dictionaries({"fam": st.just("mixed"), "n": _sizes, "seed": _seed})
-    shape = st.sampled_from(["flat", "flat", "col", "mat"])
+    # "cube" = [B, A, S] (POMO / SymNCO rewards after unbatchify), "zero" = a 0-dim tensor (one value)
+    shape = st.sampled_from(["flat", "flat", "col", "mat", "cube", "zero"])
     return st.tuples(st.one_of(explicit, lattice, gauss, const, offset, mixed), shape).map(
         lambda t: {**t[0], "shape": t[1]})
 
@@ -147,7 +175,22 @@ def build_tensor(spec, dt, c0=0.1):
             if n % a == 0 and n > a:
                 t = t.reshape(n // a, a)
                 break
+    elif shape == "cube":
+        for a, b in ((2, 2), (3, 2), (2, 3), (4, 2), (1, 2), (1, 1)):
+            if n % (a * b) == 0:
+                t = t.reshape(n // (a * b), a, b)
+                break
+    elif shape == "zero":
+        t = t[0].reshape(())
     return t
+
+
+def half_values(t64):
+    """Map arbitrary float64 values onto the lattice k/8, |k| <= 16: exactly representable in float16 and bfloat16, and
+    small enough that float16 accumulators (sum of squared deviations of <= 1000 values) stay far below 65504."""
+    k = torch.round(t64 * 8.0)
+    k = torch.where(k.abs() <= 16, k, torch.remainder(k, 33.0) - 16.0)
+    return k / 8.0
 
 
 def fam_of(spec):
@@ -169,9 +212,23 @@ class ScalerModel:
     def __init__(self, dkey):
         self.dkey = dkey
         self.eps = EPS[dkey]
+        self.tiny = TINY[dkey]
         self.vals = np.zeros(0, dtype=np.float64)
         self.sizes = []
         self.coef_mean = 0.0
+        self.bkey = dkey       # dtype of the batch being observed
+        self.switched = False  # some batch arrived in another dtype than the history's first one
+
+    def set_dtype(self, bkey):
+        """dtype of the next batch.  The accumulators keep the dtype of the first batch and every update is carried out
+        in the coarser of (accumulator dtype, batch dtype): all bounds use the eps of the coarsest dtype seen so far."""
+        if bkey != self.bkey or bkey != self.dkey:
+            self.switched = True
+        if not self.sizes:
+            self.dkey = bkey
+        self.bkey = bkey
+        self.eps = max(self.eps, EPS[bkey]) if self.sizes else EPS[bkey]
+        self.tiny = max(self.tiny, TINY[bkey]) if self.sizes else TINY[bkey]
 
     def observe(self, x):
         v = x.detach().reshape(-1).double().numpy()
@@ -187,7 +244,7 @@ class ScalerModel:
     def bounds(self):
         mx = float(np.abs(self.vals).max()) if self.N else 0.0
         bm = self.eps * mx * self.coef_mean
-        bM2 = C_M2 * self.N * self.eps * mx * mx + self.N * TINY[self.dkey]
+        bM2 = C_M2 * self.N * self.eps * mx * mx + self.N * self.tiny
         return mx, bm, bM2
 
     def check_accumulators(self, s, ctx, tag):
@@ -217,7 +274,8 @@ class ScalerModel:
     def check_output(self, s, kind, x_in, out, ctx, tag):
         """`out` = scaler(x) for kind in (norm, scale), after self.observe(x_in) and the accumulator check.
         Returns False if the comparison could not be carried out (NaN finding that is listed as known)."""
-        dkey, eps = self.dkey, self.eps
+        dkey, eps = self.bkey, self.eps
+        eps_out = EPS[self.bkey]  # finfo(scores.dtype).eps, the term added to the std; also the output's resolution
         N = self.N
         mean_ref, M2_ref, mx, bm, bM2 = self.check_accumulators(s, ctx, tag)
         x64 = x_in.double()
@@ -240,10 +298,14 @@ class ScalerModel:
             return bool(ok)
         # (b) stated transformation evaluated on the scaler's own accumulators
         var_own = max(float(s.M2) / (N - 1), 0.0)  # a negative M2 inside the accumulator bound is rounding noise around 0
-        fac_own = math.sqrt(var_own) + eps
+        fac_own = math.sqrt(var_own) + eps_out
         num = x64 - float(s.mean) if kind == "norm" else x64
         ref_own = num / fac_own
-        tol_own = 8 * EPS32 * ref_own.abs() + 1e-300
+        # (M2 / (count-1) is formed in the accumulators' dtype = dtype of the first batch, then the root in float32)
+        tol_own = 8 * max(EPS32, eps_out, EPS[self.dkey]) * ref_own.abs() + 1e-300
+        if self.switched or self.bkey in HALF:
+            # mean / std are cast to the batch dtype before use: absolute error eps_out*(|x| + |mean|) in the numerator
+            tol_own = tol_own + 2 * eps_out * (x64.abs() + abs(float(s.mean))) / fac_own
         ctx.check(bool(((o64 - ref_own).abs() <= tol_own).all()), f"transform_own|{tag}",
                   f"output is not {'(x-mean)/(std+eps)' if kind == 'norm' else 'x/(std+eps)'} for the scaler's own running "
                   f"mean/std (count={N})",
@@ -255,9 +317,9 @@ class ScalerModel:
         ctx.event("op:ref_output_compared")
         std_ref = math.sqrt(M2_ref / (N - 1))
         rs = bM2 / M2_ref
-        rel = 0.6 * rs + 4 * EPS32
+        rel = 0.6 * rs + 4 * max(EPS32, eps_out)
         numr = x64 - mean_ref if kind == "norm" else x64
-        ref = numr / (std_ref + eps)
+        ref = numr / (std_ref + eps_out)
         tol = 1.1 * ((bm if kind == "norm" else 0.0) + 2 * eps * mx) / std_ref + 1.1 * ref.abs() * rel + 1e-300
         ctx.check(bool(((o64 - ref).abs() <= tol).all()), f"transform_ref|{tag}",
                   f"output differs from the stated transformation with mean/sample-std of all {N} observed values "
@@ -272,7 +334,11 @@ def scaler_init(draw):
     scale = draw(st.sampled_from(["norm", "norm", "norm", "scale", "scale", "int", None]))
     if scale == "int":
         scale = draw(st.sampled_from([1, 2, 3, 10, 100, 7]))
-    return {"scale": scale, "dtype": draw(st.sampled_from(["f32", "f32", "f64"])), "c0": draw(_value)}
+    dtype = draw(st.sampled_from(["f32", "f32", "f32", "f32", "f64", "f64", "f16", "bf16"]))
+    init = {"scale": scale, "dtype": dtype, "c0": draw(_value)}
+    if dtype not in HALF and draw(st.integers(0, 5)) == 0:
+        init["lat"] = True  # small-lattice history: half precision batches may follow float32 / float64 ones
+    return init
 
 
 class ScalerH:
@@ -293,6 +359,13 @@ class ScalerH:
         self.n_ops = 0
         self.const_batches = 0
         self.inplace = 0
+        # histories that may see float16 / bfloat16 batches keep every batch (of any dtype) on the lattice k/8, |k| <= 16:
+        # a float16 update squares deviations (overflow at 65504) whatever the dtype of the accumulators
+        self.half_history = self.dkey in HALF or bool(init.get("lat"))
+        self.switches = 0
+        self.twin = None
+        self.forks = 0
+        self.twin_ops = 0
 
     def check(self):
         if self.n_ops == 0:
@@ -300,34 +373,84 @@ class ScalerH:
             self.ctx.check(s.count == 0 and float(s.mean) == 0 and float(s.M2) == 0, f"initial_state|{self.tag}",
                            "fresh scaler does not start from count=0, mean=0, M2=0")
 
-    def do_observe(self, b):
+    def _tensor(self, b, dt):
+        """batch in its own dtype: dt None = the history's dtype; half precision batches live on the lattice k/8, |k| <= 16"""
+        bkey = dt or self.dkey
+        if bkey in HALF and not self.half_history:
+            bkey = self.dkey  # (half precision batches only in histories that live on the small lattice)
+        if self.half_history:
+            x = half_values(build_tensor(b, torch.float64, self.c0)).to(DT[bkey])
+        else:
+            x = build_tensor(b, DT[bkey], self.c0)
+        return bkey, x
+
+    def _observe(self, s, m, b, dt, who=""):
         ctx = self.ctx
-        x = build_tensor(b, self.dt, self.c0)
+        bkey, x = self._tensor(b, dt)
         keep = x.clone()
-        self.n_ops += 1
-        self.fams.append(fam_of(b))
+        m.set_dtype(bkey)
+        if m.switched:
+            self.switches += 1
+        tag = f"{self.kind}|{'switch' if m.switched else bkey}{who}"
         flat = keep.reshape(-1)
         if flat.numel() > 1 and bool((flat == flat[0]).all()):
             self.const_batches += 1
-        out = ctx.guard(self.s, x, what="RewardScaler.__call__")
+        out = ctx.guard(s, x, what="RewardScaler.__call__")
+        ctx.event(f"op:shape={b.get('shape', 'flat')}")
         if self.kind == "none":
-            ctx.check(torch.equal(out, keep) and torch.equal(x, keep), f"identity|{self.tag}",
+            ctx.check(torch.equal(out, keep) and torch.equal(x, keep), f"identity|{tag}",
                       "scale=None must return the scores unchanged", {"out": out, "in": keep})
             return
         if self.kind == "int":
             ref = keep.double() / self.scale
             ctx.check(out.dtype == keep.dtype and out.shape == keep.shape
-                      and bool(((out.double() - ref).abs() <= 2 * self.m.eps * ref.abs()).all()), f"int_scale|{self.tag}",
+                      and bool(((out.double() - ref).abs() <= 2 * EPS[bkey] * ref.abs()).all()), f"int_scale|{tag}",
                       f"scale={self.scale}: output is not scores/{self.scale}", {"out": out, "in": keep})
-            ctx.check(torch.equal(x, keep), f"input_mutated|{self.tag}", "input tensor modified in place")
+            ctx.check(torch.equal(x, keep), f"input_mutated|{tag}", "input tensor modified in place")
             return
-        self.m.observe(keep)
+        m.observe(keep)
         if self.kind == "norm":
-            ctx.check(torch.equal(x, keep), f"input_mutated|{self.tag}",
+            ctx.check(torch.equal(x, keep), f"input_mutated|{tag}",
                       "scale='norm' modified its input tensor in place", {"in": keep, "after": x})
         elif not torch.equal(x, keep) and not bool(torch.isnan(x).any()):
             self.inplace += 1
-        self.m.check_output(self.s, self.kind, keep, out, ctx, self.tag)
+        m.check_output(s, self.kind, keep, out, ctx, tag)
+
+    def do_observe(self, b, dt=None):
+        self.n_ops += 1
+        self.fams.append(fam_of(b))
+        self._observe(self.s, self.m, b, dt)
+
+    do_observe_b = do_observe  # (aliases: Hypothesis picks rules uniformly; observe keeps 3/5 of the operations)
+    do_observe_c = do_observe
+
+    # -- audit H4: persistence in the middle of a history, both copies continuing
+    def pre_fork(self):
+        return self.n_ops >= 1 and self.forks < 2
+
+    def do_fork(self, how):
+        ctx = self.ctx
+        s = self.s
+        twin = ctx.guard(copy.deepcopy, s, what="deepcopy(RewardScaler)") if how == "deepcopy" else \
+            ctx.guard(lambda o: pickle.loads(pickle.dumps(o)), s, what="pickle(RewardScaler)")
+        self.forks += 1
+        ctx.check(twin.scale == s.scale and twin.count == s.count and float(twin.mean) == float(s.mean)
+                  and float(twin.M2) == float(s.M2), f"fork_state|{how}|{self.kind}",
+                  f"{how} copy of the scaler has count/mean/M2 {twin.count}/{float(twin.mean)!r}/{float(twin.M2)!r}, "
+                  f"original {s.count}/{float(s.mean)!r}/{float(s.M2)!r}")
+        self.twin = (twin, copy.deepcopy(self.m))
+
+    def pre_observe_twin(self):
+        return self.twin is not None
+
+    def do_observe_twin(self, b, dt=None):
+        """the copy goes on with its own batches; the original must not notice (and vice versa: every later observe of the
+        original is checked against the original's own model)"""
+        self.twin_ops += 1
+        before = (self.s.count, float(self.s.mean), float(self.s.M2))
+        self._observe(self.twin[0], self.twin[1], b, dt, who="|twin")
+        self.ctx.check((self.s.count, float(self.s.mean), float(self.s.M2)) == before, f"fork_aliased|{self.kind}",
+                       "observing a batch with the copy changed the accumulators of the original scaler")
 
     def finish(self):
         ctx, sizes = self.ctx, self.m.sizes if self.kind in ("norm", "scale") else []
@@ -346,13 +469,22 @@ class ScalerH:
                 ctx.event("hist:has_mixed_magnitude_batch")
             if self.inplace:
                 ctx.event("hist:scale_mode_divided_input_in_place")
+            if self.m.switched:
+                ctx.event("hist:dtype_switched" + ("|half_precision_history" if self.half_history else ""))
+            if self.forks:
+                ctx.event("hist:forked" + ("_and_both_continued" if self.twin_ops else ""))
             if len(sizes) >= 3 and len(set(sizes)) >= 2:
                 ctx.event("hist:>=3_batches_unequal_sizes")
                 ctx.nontriv()
             ctx.sample({"init": self.init, "sizes": sizes[:12], "families": self.fams[:12]})
 
 
-SCALER_RULES = {"observe": {"b": batch_spec()}}
+# per-batch dtype (audit item 20): None = the history's dtype
+_bdt = st.sampled_from([None, None, None, None, None, None, "f32", "f64", "f16", "bf16"])
+SCALER_RULES = {"observe": {"b": batch_spec(), "dt": _bdt}, "observe_b": {"b": batch_spec(), "dt": _bdt},
+                "observe_c": {"b": batch_spec(), "dt": _bdt},
+                "fork": {"how": st.sampled_from(["deepcopy", "pickle"])},
+                "observe_twin": {"b": batch_spec(), "dt": _bdt}}
 
 
 # --------------------------------------------------------------------------- 2. ExponentialBaseline / MeanBaseline machine
@@ -439,22 +571,39 @@ class EmaH:
         self.sl = ("mean|" if kind == "mean" else "") + beta_slice(self.beta)
         self.evals = 0
         self.grads = 0
+        self.switches = 0
+        self.twin = None
+        self.twin_evals = 0
+        self.casts = 0
 
     def check(self):
         if self.evals == 0:
             self.ctx.check(getattr(self.bl, "v", "missing") is None, f"ema_initial|{self.sl}", "fresh baseline has a value")
 
-    def _eval(self, b, S, grad):
-        ctx, bl = self.ctx, self.bl
-        reward, leaf = make_reward(b, S, self.dt, self.c0, grad)
+    def _eval(self, b, S, grad, dt=None, twin=False):
+        ctx = self.ctx
+        bl, tr = (self.twin if twin else (self.bl, self.tr))
+        bkey = dt or self.dkey
+        if bkey != self.dkey:
+            self.switches += 1
+        # the moving average is stored in the dtype of the expression beta*v + (1-beta)*mean(batch): tolerances use the
+        # eps of the coarsest dtype seen so far
+        tr.eps = max(tr.eps, EPS[bkey])
+        reward, leaf = make_reward(b, S, DT[bkey], self.c0, grad)
         keep = reward.detach().clone()
         v_prev = None if bl.v is None else float(bl.v)
         first = bl.v is None
         td = make_td(reward.shape[0])
+        other = None if self.twin is None else (self.bl if twin else self.twin[0])
+        other_v = None if other is None or other.v is None else float(other.v)
         val, loss = ctx.guard(bl.eval, td, reward, None, what="ExponentialBaseline.eval")
-        self.evals += 1
+        if other is not None:
+            ctx.check((None if other.v is None else float(other.v)) == other_v, f"ema_fork_aliased|{self.sl}",
+                      "an eval of one copy moved the moving average of the other copy")
+        self.evals += not twin
+        self.twin_evals += bool(twin)
         self.grads += bool(grad)
-        one, step_tol, m = self.tr.step_expect(keep, v_prev)
+        one, step_tol, m = tr.step_expect(keep, v_prev)
         ctx.check(isinstance(val, torch.Tensor) and val.numel() == 1, f"ema_value_shape|{self.sl}",
                   "baseline value is not a scalar tensor")
         got = float(val)
@@ -465,16 +614,18 @@ class EmaH:
             ctx.check(abs(got - one) <= step_tol, f"ema_recurrence|{self.sl}",
                       f"v_t={got!r} but beta*v_(t-1)+(1-beta)*mean_t = {one!r} (beta={self.beta}, v_(t-1)={v_prev!r}, "
                       f"mean_t={m!r})", {"err": abs(got - one), "tol": step_tol})
-        ctx.check(abs(got - self.tr.v) <= self.tr.tol, f"ema_closed_form|{self.sl}",
-                  f"after {self.evals} batches v={got!r}, float64 recurrence over the whole history gives {self.tr.v!r}",
-                  {"err": abs(got - self.tr.v), "tol": self.tr.tol})
+        ctx.check(abs(got - tr.v) <= tr.tol, f"ema_closed_form|{self.sl}",
+                  f"after {tr.n_seen} batches v={got!r}, float64 recurrence over the whole history gives {tr.v!r}",
+                  {"err": abs(got - tr.v), "tol": tr.tol})
         ctx.check(float(bl.v) == got, f"ema_state|{self.sl}", "returned value is not the stored moving average")
         ctx.check(not val.requires_grad and val.grad_fn is None and not bl.v.requires_grad, f"ema_not_detached|{self.sl}",
                   "returned/stored baseline value carries an autograd graph (must be detached)")
         ctx.check(not isinstance(loss, torch.Tensor) and loss == 0 or isinstance(loss, torch.Tensor)
                   and float(loss) == 0 and not loss.requires_grad, f"ema_loss|{self.sl}", f"baseline loss is {loss!r}, not 0")
         adv = reward - val
-        ctx.check(adv.shape == reward.shape, f"ema_broadcast|{self.sl}", "reward - baseline changes the reward shape")
+        ctx.check(adv.shape == reward.shape and adv.dtype == reward.dtype, f"ema_broadcast|{self.sl}",
+                  f"reward - baseline has shape {tuple(adv.shape)} / {adv.dtype} for a reward {tuple(reward.shape)} / "
+                  f"{reward.dtype}")
         ctx.check(torch.equal(reward.detach(), keep), f"ema_input_mutated|{self.sl}", "reward modified in place")
         if self.beta == 0:
             ctx.check(abs(got - m) <= step_tol, f"mean_baseline|{self.sl}",
@@ -482,16 +633,53 @@ class EmaH:
         if self.beta == 1 and not first:
             ctx.check(got == v_prev, f"ema_beta1_frozen|{self.sl}", "beta=1 must keep the first value")
 
-    def do_eval(self, b, S):
-        self._eval(b, S, False)
+    def do_eval(self, b, S, dt=None):
+        self._eval(b, S, False, dt)
 
-    def do_eval_grad(self, b, S):
-        self._eval(b, S, True)
+    def do_eval_grad(self, b, S, dt=None):
+        self._eval(b, S, True, dt)
+
+    do_eval_b = do_eval
+
+    # -- audit H4: copies / casts in the middle of a history
+    def pre_fork(self):
+        return self.evals >= 1 and self.twin is None
+
+    def do_fork(self, how):
+        ctx, bl = self.ctx, self.bl
+        twin = ctx.guard(copy.deepcopy, bl, what="deepcopy(ExponentialBaseline)") if how == "deepcopy" else \
+            ctx.guard(lambda o: pickle.loads(pickle.dumps(o)), bl, what="pickle(ExponentialBaseline)")
+        ctx.check(twin is not bl and twin.beta == bl.beta and twin.v is not None and float(twin.v) == float(bl.v),
+                  f"ema_fork_state|{how}", f"{how} copy has beta/v {twin.beta}/{twin.v!r}, original {bl.beta}/{bl.v!r}")
+        self.twin = (twin, copy.deepcopy(self.tr))
+
+    def pre_eval_twin(self):
+        return self.twin is not None
+
+    def do_eval_twin(self, b, S, dt=None):
+        self._eval(b, S, False, dt, twin=True)
+
+    def do_cast(self, how):
+        """nn.Module casts move parameters / buffers only; the moving average (a plain attribute) keeps its value"""
+        ctx, bl = self.ctx, self.bl
+        v0 = None if bl.v is None else float(bl.v)
+        out = ctx.guard({"double": bl.double, "float": bl.float, "to_f64": lambda: bl.to(torch.float64),
+                         "cpu": lambda: bl.to("cpu")}[how], what=f"ExponentialBaseline.{how}")
+        self.casts += 1
+        ctx.check(out is bl and (None if bl.v is None else float(bl.v)) == v0 and bl.beta == self.beta,
+                  f"ema_cast_changed_state|{how}", f"after .{how}() the baseline holds v={bl.v!r}, beta={bl.beta}; "
+                  f"before v={v0!r}, beta={self.beta}")
 
     def finish(self):
         ctx = self.ctx
         ctx.event(f"hist:{self.sl}")
         ctx.event(f"hist:dtype={self.dkey}")
+        if self.switches:
+            ctx.event("hist:dtype_switched")
+        if self.twin is not None:
+            ctx.event("hist:forked" + ("_and_both_continued" if self.twin_evals else ""))
+        if self.casts:
+            ctx.event("hist:module_cast")
         if self.grads:
             ctx.event("hist:reward_requires_grad")
         if self.evals >= 2:
@@ -501,11 +689,26 @@ class EmaH:
 
 
 _S = st.sampled_from([1, 1, 2, 3, 5])
-EMA_RULES = {"eval": {"b": batch_spec(), "S": _S}, "eval_grad": {"b": batch_spec(), "S": _S}}
+_edt = st.sampled_from([None, None, None, None, "f32", "f64"])
+EMA_RULES = {"eval": {"b": batch_spec(), "S": _S, "dt": _edt}, "eval_grad": {"b": batch_spec(), "S": _S, "dt": _edt},
+             "eval_b": {"b": batch_spec(), "S": _S, "dt": _edt},
+             "fork": {"how": st.sampled_from(["deepcopy", "pickle"])},
+             "eval_twin": {"b": batch_spec(), "S": _S, "dt": _edt},
+             "cast": {"how": st.sampled_from(["double", "float", "to_f64", "cpu"])}}
 
 
 # --------------------------------------------------------------------------- 3. WarmupBaseline machine
+StubBaseline = None  # created on first use (rl4co is imported lazily); module-level name so that pickle finds it
+
+
 def make_stub():
+    global StubBaseline
+    if StubBaseline is None:
+        StubBaseline = _stub_class()
+    return StubBaseline()
+
+
+def _stub_class():
     from rl4co.models.rl.reinforce.baselines import REINFORCEBaseline
 
     class StubBaseline(REINFORCEBaseline):
@@ -530,7 +733,9 @@ def make_stub():
         def setup(self, *a, **kw):
             self.setup_calls += 1
 
-    return StubBaseline()
+    StubBaseline.__qualname__ = "StubBaseline"
+    StubBaseline.__module__ = __name__
+    return StubBaseline
 
 
 @st.composite
@@ -568,6 +773,8 @@ class WarmH:
         self.last_e = -1
         self.alphas_seen = set()
         self.stale_known = False
+        self.setups = 0
+        self.forks = 0
 
     def check(self):
         ctx, wb = self.ctx, self.wb
@@ -615,16 +822,26 @@ class WarmH:
     # -- evaluation
     def _eval(self, b, inner, grad):
         ctx, wb, stub = self.ctx, self.wb, self.stub
-        reward, leaf = make_reward(b, 1, self.dt, self.c0, grad)
+        # inner["shape"]: vec [B] | scalar 0-dim | col: reward [B, S] with a per-instance inner value [B, 1] (shared /
+        # critic-style baselines under multi-start rewards) | pynum: python numbers (0, 0), what NoBaseline returns
+        reward, leaf = make_reward(b, int(inner.get("S", 2)) if inner["shape"] == "col" else 1, self.dt, self.c0, grad)
         keep = reward.detach().clone()
         B_ = reward.shape[0]
         g = torch.Generator().manual_seed(int(inner["seed"]))
-        if inner["shape"] == "scalar":
+        pynum = inner["shape"] == "pynum"
+        if pynum:
+            ival, iloss = 0, 0
+        elif inner["shape"] == "scalar":
             ival = torch.randint(-64, 65, (), generator=g).to(self.dt) / 8.0
+        elif reward.dim() == 2:
+            ival = torch.randint(-64, 65, (B_, 1), generator=g).to(self.dt) / 8.0
         else:
             ival = torch.randint(-64, 65, (B_,), generator=g).to(self.dt) / 8.0
-        iloss = torch.tensor(float(inner["loss"]), dtype=self.dt)
+        if not pynum:
+            iloss = torch.tensor(float(inner["loss"]), dtype=self.dt)
+        ival64 = torch.as_tensor(ival, dtype=torch.float64) if pynum else ival.double()
         stub.next_val, stub.next_loss = ival, iloss
+        ctx.event(f"op:inner={inner['shape']}" + ("|reward[B,S]" if reward.dim() == 2 else ""))
         a = self.alpha
         ema = wb.warmup_baseline
         if self.dirty and a < 1:
@@ -640,7 +857,9 @@ class WarmH:
         ctx.check(torch.equal(reward.detach(), keep), f"warmup_input_mutated|{sl}", "reward modified in place")
         if a == 1:
             ctx.check(consulted == 1, f"warmup_inner_calls|{sl}", f"inner baseline consulted {consulted}x at alpha=1")
-            ctx.check(isinstance(val, torch.Tensor) and torch.equal(val, ival) and torch.equal(torch.as_tensor(loss), iloss),
+            same = (val == 0 and loss == 0 and not isinstance(val, torch.Tensor)) if pynum else (
+                isinstance(val, torch.Tensor) and torch.equal(val, ival) and torch.equal(torch.as_tensor(loss), iloss))
+            ctx.check(same,
                       f"warmup_after|{sl}", "after warm-up the result must be exactly the inner baseline's (value, loss)",
                       {"val": val, "inner": ival, "loss": loss, "inner_loss": iloss})
             self.dirty = True
@@ -660,19 +879,67 @@ class WarmH:
         else:
             ctx.check(consulted == 1, f"warmup_inner_calls|{sl}", f"inner baseline consulted {consulted}x at alpha={a}")
             eps = EPS[self.dkey]
-            want = a * ival.double() + (1 - a) * one
-            tol = 4 * eps * (a * ival.double().abs() + (1 - a) * abs(one)) + (1 - a) * step_tol + 1e-300
-            ctx.check(isinstance(val, torch.Tensor) and val.shape == ival.shape
+            want = a * ival64 + (1 - a) * one
+            tol = 4 * eps * (a * ival64.abs() + (1 - a) * abs(one)) + (1 - a) * step_tol + 1e-300
+            ctx.check(isinstance(val, torch.Tensor) and val.shape == ival64.shape
                       and bool(((val.detach().double() - want).abs() <= tol).all()), f"warmup_value|{sl}",
                       f"value is not alpha*inner + (1-alpha)*ema (alpha={a}, ema={one!r})",
                       {"val": val, "inner": ival, "want": want})
             wl = a * float(iloss)
+
             ctx.check(abs(float(torch.as_tensor(loss)) - wl) <= 4 * eps * abs(wl) + 1e-300, f"warmup_loss|{sl}",
                       f"loss {float(torch.as_tensor(loss))!r} is not alpha*inner_loss + (1-alpha)*0 = {wl!r}")
         ctx.check(not torch.as_tensor(val).requires_grad, f"warmup_not_detached|{sl}",
                   "warm-up value carries an autograd graph although neither component should")
         adv = reward - val
         ctx.check(adv.shape == reward.shape, f"warmup_broadcast|{sl}", "reward - baseline changes the reward shape")
+
+    # -- audit H4: setup (also a second time) and copies in the middle of a history
+    def do_setup(self):
+        """WarmupBaseline.setup forwards to the inner baseline (REINFORCE.post_setup_hook; run again by
+        load_from_checkpoint / a second fit): the warm-up weight and the moving average must survive it"""
+        ctx, wb, stub = self.ctx, self.wb, self.stub
+        ema = wb.warmup_baseline
+        v0 = None if ema.v is None else float(ema.v)
+        calls = stub.setup_calls
+        ctx.guard(wb.setup, object(), object(), batch_size=5, device="cpu", dataset_size=9, what="WarmupBaseline.setup")
+        self.setups += 1
+        ctx.check(stub.setup_calls == calls + 1, "warmup_setup_forward", f"setup forwarded {stub.setup_calls - calls}x "
+                  "to the inner baseline")
+        ctx.check((None if ema.v is None else float(ema.v)) == v0 and wb.warmup_baseline is ema,
+                  "warmup_setup_reset_ema", f"setup changed the warm-up moving average from {v0!r} to {ema.v!r}")
+        # (alpha is compared with the model by check() after every operation)
+
+    def pre_fork(self):
+        return self.forks < 2
+
+    def do_fork(self, how, b):
+        """deepcopy / pickle of the whole warm-up baseline: the copy continues from the same state (one eval compared
+        with the one-step expectation) and the original does not notice"""
+        ctx, wb = self.ctx, self.wb
+        twin = ctx.guard(copy.deepcopy, wb, what="deepcopy(WarmupBaseline)") if how == "deepcopy" else \
+            ctx.guard(lambda o: pickle.loads(pickle.dumps(o)), wb, what="pickle(WarmupBaseline)")
+        self.forks += 1
+        ema, tema = wb.warmup_baseline, twin.warmup_baseline
+        v0 = None if ema.v is None else float(ema.v)
+        ctx.check(twin is not wb and float(twin.alpha) == float(wb.alpha) and twin.n_epochs == wb.n_epochs
+                  and tema.beta == ema.beta and (None if tema.v is None else float(tema.v)) == v0,
+                  f"warmup_fork_state|{how}", f"{how} copy has alpha/n_epochs/beta/v {twin.alpha}/{twin.n_epochs}/"
+                  f"{tema.beta}/{tema.v!r}, original {wb.alpha}/{wb.n_epochs}/{ema.beta}/{ema.v!r}")
+        if self.alpha < 1:
+            reward, _ = make_reward(b, 1, self.dt, self.c0, False)
+            r = reward.double().reshape(-1).numpy()
+            m = math.fsum(r) / len(r)
+            want = m if v0 is None else self.beta * v0 + (1 - self.beta) * m
+            tstub = twin.baseline
+            tstub.next_val, tstub.next_loss = torch.zeros(reward.shape[0], dtype=self.dt), torch.zeros((), dtype=self.dt)
+            ctx.guard(twin.eval, make_td(reward.shape[0]), reward, None, what="WarmupBaseline.eval|copy")
+            mx = max(float(np.abs(r).max()), abs(v0 or 0.0))
+            ctx.check(abs(float(tema.v) - want) <= EPS[self.dkey] * mx * (len(r) / 2 + 8) + 1e-300,
+                      f"warmup_fork_continue|{how}", f"the copy's moving average moved to {float(tema.v)!r}, expected "
+                      f"{want!r} from the state at the time of the copy")
+            ctx.check((None if ema.v is None else float(ema.v)) == v0, f"warmup_fork_aliased|{how}",
+                      "an eval of the copy moved the moving average of the original")
 
     def do_eval(self, b, inner):
         self._eval(b, inner, False)
@@ -709,13 +976,18 @@ class WarmH:
             ctx.event("hist:reached_alpha_1")
         if any(0 < x < 1 for x in self.alphas_seen):
             ctx.event("hist:interior_alpha")
+        if self.setups:
+            ctx.event("hist:setup" + ("_twice" if self.setups >= 2 else "_once"))
+        if self.forks:
+            ctx.event("hist:forked")
         if self.evals >= 2 and cb:
             ctx.event("hist:>=2_evals_and_callback")
             ctx.nontriv()
         ctx.sample({"init": self.init, "callbacks": cb[:12], "evals": self.evals})
 
 
-_inner = st.fixed_dictionaries({"seed": _seed, "shape": st.sampled_from(["vec", "vec", "scalar"]),
+_inner = st.fixed_dictionaries({"seed": _seed, "shape": st.sampled_from(["vec", "vec", "scalar", "col", "pynum"]),
+                                "S": st.sampled_from([2, 3]),
                                 "loss": st.one_of(st.just(0.0), st.integers(0, 64).map(lambda k: k / 8.0),
                                                   st.floats(2.0 ** -10, 10.0, width=32))})
 WARM_RULES = {
@@ -724,6 +996,8 @@ WARM_RULES = {
     "epoch": {"e": st.one_of(st.integers(0, 4), st.integers(0, 7))},
     "next_epoch": {},
     "wrap": {},
+    "setup": {},
+    "fork": {"how": st.sampled_from(["deepcopy", "pickle"]), "b": batch_spec()},
 }
 
 
@@ -733,7 +1007,11 @@ def simple_cases(draw, tier="quick"):
     return {"B": draw(st.integers(1, 8)), "S": draw(st.integers(1, 8)), "K": draw(st.sampled_from([0, 0, 2, 3])),
             "fam": draw(st.sampled_from(["lattice", "gauss", "offset", "mixed", "const"])),
             "seed": draw(_seed), "seed2": draw(_seed), "dtype": draw(st.sampled_from(["f32", "f64"])),
-            "on_dim": draw(st.sampled_from([None, None, 1, 0]))}
+            # SharedBaseline(on_dim=...): negative / last / tuple of dims (audit item 35); "last" = S or K axis
+            "on_dim": draw(st.sampled_from([None, None, 1, 0, -1, "last", "tuple"])),
+            # registry branch get_reinforce_baseline("warmup", n_epochs=, warmup_exp_beta=)
+            "wn": draw(st.integers(1, 4)), "wbeta": draw(st.sampled_from([0.0, 0.5, 0.8, 0.9, 1.0])),
+            "wcb": draw(st.integers(0, 5))}
 
 
 def _fam_tensor(fam, n, seed, dt):
@@ -764,25 +1042,72 @@ def simple_execute(case, ctx):
     ctx.check(v == 0 and l == 0 and torch.equal(reward - v, keep), "no_baseline", f"NoBaseline returned {(v, l)!r}")
     # SharedBaseline
     on_dim = case["on_dim"]
+    if on_dim == "last":
+        on_dim = len(shape) - 1
+    elif on_dim == "tuple":
+        on_dim = tuple(range(1, len(shape)))  # all rollout axes of an instance at once
     kw = {} if on_dim is None else {"on_dim": on_dim}
     dim = 1 if on_dim is None else on_dim
+    dims = tuple(d % len(shape) for d in (dim if isinstance(dim, tuple) else (dim,)))  # own normalisation of the axes
+    ctx.event(f"shared:on_dim={case['on_dim']}")
     v, l = ctx.guard(B.SharedBaseline().eval, td, reward, None, what="SharedBaseline.eval", **kw)
-    want = keep.double().mean(dim=dim, keepdim=True)
-    wshape = list(shape)
-    wshape[dim] = 1
-    ctx.check(isinstance(v, torch.Tensor) and list(v.shape) == wshape, f"shared_shape|dim={dim}",
+    want = keep.double()
+    for d in dims:
+        want = want.mean(dim=d, keepdim=True)
+    wshape = [1 if i in dims else n_ for i, n_ in enumerate(shape)]
+    group = int(np.prod([shape[d] for d in dims]))
+    ctx.check(isinstance(v, torch.Tensor) and list(v.shape) == wshape, f"shared_shape|dim={case['on_dim']}",
               f"shared baseline shape {tuple(v.shape) if isinstance(v, torch.Tensor) else v!r}, expected {wshape}")
-    tol = eps * mx * (shape[dim] / 2 + 4) + 1e-300
-    ctx.check(bool(((v.double() - want).abs() <= tol).all()), f"shared_value|dim={dim}",
+    tol = eps * mx * (group / 2 + 4) + 1e-300
+    ctx.check(bool(((v.double() - want).abs() <= tol).all()), f"shared_value|dim={case['on_dim']}",
               "shared baseline is not the per-instance mean over the starts dimension", {"got": v, "want": want})
     ctx.check(l == 0, "shared_loss", f"shared baseline loss {l!r}")
     adv = reward - v
     ctx.check(adv.shape == reward.shape, "shared_broadcast", "reward - shared baseline changes the reward shape")
-    ctx.check(bool((adv.double().sum(dim=dim).abs() <= shape[dim] * 2 * tol).all()), f"shared_centered|dim={dim}",
+    ctx.check(bool((adv.double().sum(dim=dims).abs() <= group * 2 * tol).all()), f"shared_centered|dim={case['on_dim']}",
               "advantages under the shared baseline do not sum to zero per instance")
     ctx.check(torch.equal(reward, keep), "shared_input_mutated", "reward modified in place")
-    if shape[dim] == 1:
+    if group == 1:
         ctx.event("shared:single_start")
+    # registry branch "warmup": Warmup(Warmup(Rollout)); the configured number of epochs arrives at both levels, the
+    # moving-average coefficient at the outer one; with a stub in place of the rollout baseline the value after c epoch
+    # callbacks is a*(a*inner + (1-a)*m) + (1-a)*m, a = min(1, c/n), m = mean of the (first) batch
+    if "wn" in case:
+        wn, wbeta, wcb = case["wn"], float(case["wbeta"]), case["wcb"]
+        wb = ctx.guard(B.get_reinforce_baseline, "warmup", n_epochs=wn, warmup_exp_beta=wbeta,
+                       what="get_reinforce_baseline(warmup)")
+        ok = (isinstance(wb, B.WarmupBaseline) and isinstance(wb.baseline, B.WarmupBaseline)
+              and isinstance(wb.baseline.baseline, B.RolloutBaseline))
+        if ctx.check(ok, "registry|warmup", "get_reinforce_baseline('warmup') is not Warmup(Warmup(Rollout))"):
+            ctx.check(wb.n_epochs == wn and wb.baseline.n_epochs == wn and wb.warmup_baseline.beta == wbeta
+                      and wb.alpha == 0 and wb.baseline.alpha == 0, "registry|warmup|config",
+                      f"n_epochs={wn}, warmup_exp_beta={wbeta} configured; outer has n_epochs {wb.n_epochs}, beta "
+                      f"{wb.warmup_baseline.beta}, inner n_epochs {wb.baseline.n_epochs}")
+            stub = make_stub()
+            wb.baseline.baseline = stub
+            for e in range(wcb):
+                ctx.guard(wb.epoch_callback, object(), env=object(), batch_size=3, device="cpu", epoch=e, dataset_size=5,
+                          what="WarmupBaseline.epoch_callback|registry_warmup")
+            a = min(1.0, wcb / wn)
+            ctx.check(len(stub.epoch_calls) == wcb and abs(float(wb.alpha) - a) <= 1e-12
+                      and abs(float(wb.baseline.alpha) - a) <= 1e-12, "registry|warmup|alpha",
+                      f"after {wcb} epoch callbacks (n_epochs {wn}): outer alpha {wb.alpha}, inner alpha "
+                      f"{wb.baseline.alpha}, innermost baseline called back {len(stub.epoch_calls)}x; expected {a}")
+            r1 = reward.reshape(Bn, -1)[:, 0].clone()
+            g = torch.Generator().manual_seed(case["seed2"])
+            stub.next_val = torch.randint(-64, 65, (Bn,), generator=g).to(dt) / 8.0
+            stub.next_loss = torch.tensor(0.5, dtype=dt)
+            v, l = ctx.guard(wb.eval, td, r1, None, what="WarmupBaseline.eval|registry_warmup")
+            m = math.fsum(r1.double().numpy()) / Bn
+            inner = stub.next_val.double() if a == 1 else a * stub.next_val.double() + (1 - a) * m
+            want = inner if a == 1 else (torch.full((), m, dtype=torch.float64) if a == 0 else a * inner + (1 - a) * m)
+            wl = 0.5 * a * a if a < 1 else 0.5
+            tolw = eps * float(r1.abs().max()) * (Bn / 2 + 8) + 8 * eps * float(want.abs().max()) + 1e-300
+            ctx.check(isinstance(v, torch.Tensor) and bool(((v.double() - want).abs() <= tolw).all())
+                      and abs(float(torch.as_tensor(l)) - wl) <= 8 * eps * wl + 1e-300, "registry|warmup|value",
+                      f"nested warm-up value/loss after {wcb} of {wn} epochs is not the stated convex combination "
+                      f"(alpha {a})", {"got": v, "want": want, "loss": l, "want_loss": wl})
+            ctx.event("registry_warmup:alpha=" + ("0" if a == 0 else "1" if a == 1 else "interior"))
     # MeanBaseline: every value is the mean of the current batch only
     mb = ctx.guard(B.get_reinforce_baseline, "mean", what="get_reinforce_baseline(mean)")
     for i, r in enumerate((reward, reward2)):
@@ -808,8 +1133,15 @@ def loss_cases(draw, tier="quick"):
     batches = [{"B": draw(st.integers(1, 8)), "S": draw(st.integers(1, 6)) if bl == "shared" else 0,
                 "seed": draw(_seed), "mu": draw(st.sampled_from([0.0, -5.0, -20.0])),
                 "sigma": draw(st.sampled_from([0.1, 1.0, 3.0]))} for _ in range(nb)]
-    return {"bl": bl, "beta": draw(_beta), "scale": scale, "dtype": draw(st.sampled_from(["f32", "f64"])),
-            "batches": batches}
+    c = {"bl": bl, "beta": draw(_beta), "scale": scale, "dtype": draw(st.sampled_from(["f32", "f64"])),
+         "batches": batches}
+    # audit item 35: reward= / log_likelihood= handed over explicitly (the POMO / SymNCO route; policy_out then holds
+    # the flat, differently shaped rollout tensors) and batch["extra"] in front of a stateful baseline
+    c["explicit"] = draw(st.sampled_from([False, False, True]))
+    if bl in ("exponential", "mean", "warmup"):
+        for b_ in batches:
+            b_["extra"] = draw(st.sampled_from([False, False, False, True]))
+    return c
 
 
 def loss_execute(case, ctx):
@@ -845,7 +1177,8 @@ def loss_execute(case, ctx):
         batch = TensorDict({}, batch_size=[Bn])
         extra_val = None
         inner_loss = 0.0
-        if bl == "extra":
+        has_extra = bl == "extra" or bool(bs.get("extra"))
+        if has_extra:
             extra_val = torch.randint(-64, 65, (Bn,), generator=g).to(dt) / 8.0
             batch["extra"] = extra_val
         if bl == "warmup":
@@ -857,8 +1190,23 @@ def loss_execute(case, ctx):
             v_prev = None if baseline.v is None else float(baseline.v)
         elif bl == "warmup":
             v_prev = None if baseline.warmup_baseline.v is None else float(baseline.warmup_baseline.v)
-        pout = {"reward": reward, "log_likelihood": ll}
-        out = ctx.guard(REINFORCE.calculate_loss, fake, make_td(Bn), batch, pout, what="REINFORCE.calculate_loss")
+        stub_calls = stub.eval_calls if bl == "warmup" else 0
+        if case.get("explicit"):
+            # policy_out carries other tensors (flat layout, shifted values): the explicit arguments must win
+            pout = {"reward": reward.reshape(-1).flip(0) + 3.0, "log_likelihood": (ll.detach().reshape(-1) * 0.5 - 1.0)}
+            out = ctx.guard(REINFORCE.calculate_loss, fake, make_td(Bn), batch, pout, reward=reward, log_likelihood=ll,
+                            what="REINFORCE.calculate_loss|explicit")
+        else:
+            pout = {"reward": reward, "log_likelihood": ll}
+            out = ctx.guard(REINFORCE.calculate_loss, fake, make_td(Bn), batch, pout, what="REINFORCE.calculate_loss")
+        if has_extra and bl != "extra":
+            # a supplied `extra` replaces the baseline: a stateful baseline must be left untouched
+            ema_obj = baseline.warmup_baseline if bl == "warmup" else baseline
+            v_now = None if ema_obj.v is None else float(ema_obj.v)
+            ctx.check(v_now == v_prev and (bl != "warmup" or stub.eval_calls == stub_calls),
+                      f"extra_touched_baseline|{bl}", f"batch['extra'] was supplied but the {bl} baseline was evaluated "
+                      f"(moving average {v_prev!r} -> {v_now!r})")
+            ctx.event("loss:extra_with_stateful_baseline")
         for k in ("loss", "reinforce_loss", "bl_loss", "bl_val"):
             ctx.check(k in out, f"loss_keys|{tag}", f"calculate_loss output lacks {k!r}")
         bl_val, bl_loss = out["bl_val"], out["bl_loss"]
@@ -866,7 +1214,7 @@ def loss_execute(case, ctx):
         r64 = keep.double()
         if bl == "no":
             want, btol, wl = torch.zeros(()), 0.0, 0.0
-        elif bl == "extra":
+        elif has_extra:
             want, btol, wl = extra_val.double(), 0.0, 0.0
         elif bl == "shared":
             want, btol, wl = r64.mean(dim=1, keepdim=True), eps * float(r64.abs().max()) * (S / 2 + 4), 0.0
@@ -937,6 +1285,8 @@ def loss_execute(case, ctx):
         ctx.nontriv()
     ctx.event(f"bl:{bl}")
     ctx.event(f"scale:{kind}")
+    if case.get("explicit"):
+        ctx.event("loss:explicit_reward_and_ll")
     ctx.sample({"bl": bl, "scale": scale, "dtype": dkey, "batches": len(case["batches"])})
 
 
